@@ -24,7 +24,7 @@ MODES = {
 }
 RESET_TO_MODE = {"numbers": "numbers", "tok": "tok", "nested": "nested", "keyval": "keyval", "keyval-chain": "keyval",
                  "dist": "dist", "params": "params", "glob": "glob", "vars": "vars", "table": "table", "table-shape": "table",
-                 "table-history": "table"}
+                 "table-history": "table", "table-read": "table"}
 
 
 def _args(tier):
